@@ -1,6 +1,9 @@
 package checks
 
 import (
+	"fmt"
+	v120 "github.com/chain4energy/c4e-chain/app/upgrades/v120"
+	vtypes "github.com/chain4energy/c4e-chain/x/cfevesting/types"
 	"verifsim/kernel"
 )
 
@@ -49,7 +52,10 @@ var vestProfiles = map[string]vestProfile{
 func vestRunSeed(prop string, seed uint64, tier string) *Outcome {
 	pf := vestProfiles[prop]
 	r := kernel.NewRng(seed)
-	spec, w := buildVestingWorld(r.Fork(20), vestingWorldOpts{MaxAmtExp: 24, GenesisPools: true, GenesisVAccs: true, MultiDenomAcc: true})
+	// every twentieth C05 run: an operator who skips the genesis invariant assertion imports a genesis file that may list
+	// one owner in two spellings
+	lenient := prop == "C05" && seed%20 == 7
+	spec, w := buildVestingWorld(r.Fork(20), vestingWorldOpts{MaxAmtExp: 24, GenesisPools: true, GenesisVAccs: true, MultiDenomAcc: true, TwoSpellings: lenient})
 	spec.Distributor = simpleDistributorJSON(kernel.ActorBech("dist-sink"))
 	// some base accounts exist without a public key (funded, never signed)
 	spec.NoPubKey = append(spec.NoPubKey, spec.Clients[len(spec.Clients)-1])
@@ -57,6 +63,12 @@ func vestRunSeed(prop string, seed uint64, tier string) *Outcome {
 		spec.NoPubKey = append(spec.NoPubKey, spec.Clients[len(spec.Clients)-2])
 	}
 	tr := &kernel.Trace{Profile: prop, Seed: seed, Spec: *spec}
+	if lenient {
+		tr.Node = kernel.NodeOpts{SkipGenesisInvariants: true}
+		if o := rejectedGenesis(tr); o != nil {
+			return o
+		}
+	}
 	rr := r.Fork(21)
 	src := &genSource{rng: rr, nBlocks: rr.Range(pf.Blocks[0], pf.Blocks[1]), Cadence: w.cadence, MaxTxs: pf.MaxTxs, PTx: 0.85, TxGens: w.txGens(pf.Weights)}
 	if seed%5 == 2 {
@@ -74,7 +86,28 @@ func vestRunSeed(prop string, seed uint64, tier string) *Outcome {
 	return o
 }
 
+// rejectedGenesis: the operator of a lenient node (genesis invariant assertion skipped) did run validate-genesis; a file
+// that the module's own validation rejects is not an input, and the run gives no verdict.
+func rejectedGenesis(tr *kernel.Trace) *Outcome {
+	var vg vtypes.GenesisState
+	if err := kernel.Enc().Marshaler.UnmarshalJSON(tr.Spec.Vesting, &vg); err != nil {
+		return nil
+	}
+	if err := vg.Validate(); err == nil {
+		return nil
+	}
+	o := &Outcome{Trace: tr}
+	o.Stats.Inc("probe.generated_genesis_rejected_by_validation")
+	o.Fingerprint = fingerprint("genesis-rejected")
+	return o
+}
+
 func vestReplay(prop string, tr *kernel.Trace) *Outcome {
+	if tr.Node.SkipGenesisInvariants {
+		if o := rejectedGenesis(tr); o != nil {
+			return o
+		}
+	}
 	vm, mons := vestMonitors(prop)
 	_, o := execTrace(tr, nil, mons, false)
 	finishVestOutcome(o, vm)
@@ -199,6 +232,24 @@ func c17UpgradeExec(tr *kernel.Trace) *Outcome {
 		}
 	}
 	o.Violations = keep
+	// pool-order twin: which pools become genesis pools (and everything else about the owner's pools) may not depend on
+	// the order in which the owner's pools happen to be stored
+	if len(keep) == 0 && o.InfraErr == nil && o.Aux != nil {
+		if twin := reversedPoolOrder(tr); twin != nil {
+			o2 := c16Replay(twin)
+			if o2.InfraErr == nil && o2.Aux != nil {
+				o.Evals++
+				o.Stats.Inc("probe.pool_order_twin_compared")
+				for _, k := range kernel.SortedKeys(o.Aux) {
+					if o2.Aux[k] != o.Aux[k] {
+						o.Violations = append(o.Violations, &kernel.Violation{Property: "C17", Check: "lineage-after-upgrade", Signature: "pool-flags-depend-on-pool-order", Block: 1, TxIndex: -1,
+							Message: fmt.Sprintf("after the upgrade pool %q of the hard-coded owner is {%s}; with the owner's pools stored in the reverse order it is {%s}", k, o.Aux[k], o2.Aux[k])})
+						break
+					}
+				}
+			}
+		}
+	}
 	o.Stats.Inc("probe.lineage_checked_across_upgrade")
 	return o
 }
@@ -216,4 +267,28 @@ func c05UpgradeExec(tr *kernel.Trace) *Outcome {
 	o.Violations = keep
 	o.Stats.Inc("probe.solvency_checked_across_upgrade")
 	return o
+}
+
+// reversedPoolOrder: the same trace with the pools of the upgrade's hard-coded owner listed in the reverse order in the
+// genesis (nil when the owner has fewer than two pools).
+func reversedPoolOrder(tr *kernel.Trace) *kernel.Trace {
+	var vg vtypes.GenesisState
+	if err := kernel.Enc().Marshaler.UnmarshalJSON(tr.Spec.Vesting, &vg); err != nil {
+		return nil
+	}
+	done := false
+	for _, avp := range vg.AccountVestingPools {
+		if avp.Owner == v120.ValidatorsVestingPoolOwner && len(avp.VestingPools) > 1 {
+			for i, j := 0, len(avp.VestingPools)-1; i < j; i, j = i+1, j-1 {
+				avp.VestingPools[i], avp.VestingPools[j] = avp.VestingPools[j], avp.VestingPools[i]
+			}
+			done = true
+		}
+	}
+	if !done {
+		return nil
+	}
+	twin := tr.Clone()
+	twin.Spec.Vesting = kernel.Enc().Marshaler.MustMarshalJSON(&vg)
+	return twin
 }
